@@ -23,6 +23,18 @@ Section Dedup.
                       else match find_key k r with Some i => Some (S i) | None => None end
     end.
 
+  (** A Go map filled by assigning index[key] = position while walking the slice front to back:
+      a later entry with the same key overwrites the earlier one, so the lookup yields the LAST position. *)
+  Fixpoint find_last (k : bytes) (l : list (bytes * A)) : option nat :=
+    match l with
+    | [] => None
+    | (k', _) :: r =>
+        match find_last k r with
+        | Some i => Some (S i)
+        | None => if bytes_eqb k' k then Some 0%nat else None
+        end
+    end.
+
   Fixpoint set_nth (i : nat) (a : bytes * A) (l : list (bytes * A)) : list (bytes * A) :=
     match l, i with
     | [], _ => []
@@ -87,13 +99,16 @@ Definition add_attrs (lenlim : Z) (r : rec) (attrs : list lkv) : rec :=
   {| r_front := r_front r ++ firstn room la; r_back := r_back r ++ skipn room la;
      r_flat := r_flat r; r_nested := (r_nested r + n)%nat |}.
 
-(** The attrIndex lookup followed by the in-place write (front if the index is negative, else back). *)
+(** attrIndex() followed by the in-place write.  The index map is filled from the inline array first
+    (negative codes) and then from the overflow slice (non-negative codes), each assignment replacing an
+    earlier one for the same key: the lookup finds the last position in the overflow slice if the key
+    occurs there, otherwise the last position in the inline array. *)
 Definition overwrite (r : rec) (a : lkv) : option rec :=
-  match find_key (fst a) (r_front r) with
-  | Some i => Some {| r_front := set_nth i a (r_front r); r_back := r_back r; r_flat := r_flat r; r_nested := r_nested r |}
+  match find_last (fst a) (r_back r) with
+  | Some i => Some {| r_front := r_front r; r_back := set_nth i a (r_back r); r_flat := r_flat r; r_nested := r_nested r |}
   | None =>
-      match find_key (fst a) (r_back r) with
-      | Some i => Some {| r_front := r_front r; r_back := set_nth i a (r_back r); r_flat := r_flat r; r_nested := r_nested r |}
+      match find_last (fst a) (r_front r) with
+      | Some i => Some {| r_front := set_nth i a (r_front r); r_back := r_back r; r_flat := r_flat r; r_nested := r_nested r |}
       | None => None
       end
   end.
@@ -140,6 +155,15 @@ Definition step (lenlim limit : Z) (r : rec) (o : op) : rec :=
   end.
 
 Definition run_model (lenlim limit : Z) (ops : list op) : rec := fold_left (step lenlim limit) ops empty_rec.
+
+(** logger.newRecord: a fresh record carrying the provider's limits; the attributes of the emitted
+    API record are added one by one (WalkAttributes + AddAttributes(kv)). *)
+Definition new_record (lenlim limit : Z) (init : list lkv) : rec :=
+  fold_left (fun r a => add_attributes lenlim limit r [a]) init empty_rec.
+
+(** Emit, then the processors' edits. *)
+Definition run_emit (lenlim limit : Z) (init : list lkv) (ops : list op) : rec :=
+  fold_left (step lenlim limit) ops (new_record lenlim limit init).
 
 Definition attrs_of (r : rec) : list lkv := r_front r ++ r_back r.
 
